@@ -188,3 +188,96 @@ func verifC13(maxRcpt, preempt int) {
 	_ = errors.New
 	_ = strconv.Itoa
 }
+
+// verif_C13_isolation: "correctly attributed", across messages, with the real
+// code as its own oracle. On one LMTP connection with a per-recipient backend
+// two earlier messages (recipient lists with and without a repeated address,
+// statuses set explicitly or left to the return value) are followed by a third
+// one whose recipient list, SetStatus script and return value are arbitrary;
+// its replies must be exactly those the same message gets on a fresh
+// connection: no status of an earlier message is ever reported for a later one.
+func verif_C13_isolation() {
+	verifPreemptBound(0)
+	verifSchedForkBound(0)
+	type msg struct {
+		rcpts []string
+		sets  []int // per SetStatus call, in recipient order: 0 ok, 1 450, 2 550, 3 no call
+		ret   int
+	}
+	history := []msg{
+		{[]string{"b@v", "b@v"}, []int{3, 3}, 0},
+		{[]string{"b@v", "b@v"}, []int{0, 1}, 0},
+		{[]string{"b@v", "c@v"}, []int{3, 3}, 2},
+		{[]string{"b@v"}, []int{3}, 0},
+		{[]string{"b@v"}, []int{1}, 0},
+		{[]string{"b@v", "c@v", "b@v"}, []int{2, 3, 3}, 1},
+	}
+	h1 := history[verifChoice(len(history))]
+	h2 := history[verifChoice(len(history))]
+	var last msg
+	last.rcpts = [][]string{{"b@v"}, {"b@v", "b@v"}, {"b@v", "c@v"}, {"c@v", "b@v"}}[verifChoice(4)]
+	for range last.rcpts {
+		last.sets = append(last.sets, verifChoice(4))
+	}
+	last.ret = verifChoice(3)
+	bdat := nondetBool()
+	run := func(msgs []msg) []byte {
+		be := &vbackend{lmtpSession: true}
+		k := 0
+		be.lmtpFn = func(_ *vsession, r io.Reader, st StatusCollector) error {
+			m := msgs[k]
+			k++
+			verifReadAll(r, 4)
+			for i, a := range m.rcpts {
+				if m.sets[i] != 3 {
+					st.SetStatus(a, verifStatusErr(m.sets[i]))
+				}
+			}
+			return verifStatusErr(m.ret)
+		}
+		s, _ := verifServer(be)
+		s.LMTP = true
+		in := "LHLO c\r\n"
+		mark := 0
+		for i, m := range msgs {
+			if i == len(msgs)-1 {
+				mark = len(in)
+			}
+			in += "MAIL FROM:<s@v>\r\n"
+			for _, a := range m.rcpts {
+				in += "RCPT TO:<" + a + ">\r\n"
+			}
+			if bdat {
+				in += "BDAT 2 LAST\r\nhi"
+			} else {
+				in += "DATA\r\nhi\r\n.\r\n"
+			}
+		}
+		vc := &vconn{in: []byte(in), final: io.EOF, cuts: []int{mark}}
+		omark := 0
+		c := newConn(vc, s)
+		// note the output position when the last message starts
+		vc.onRead = func(pos int) {
+			if pos == mark {
+				omark = len(vc.out)
+			}
+		}
+		s.handleConn(c)
+		verifSettle()
+		return vc.out[omark:]
+	}
+	verifStatusText = "later"
+	a := run([]msg{h1, h2, last})
+	b := run([]msg{last})
+	ra, wfa := verifParseReplies(a)
+	rb, wfb := verifParseReplies(b)
+	verifObserve("c13iso", bdat, len(last.rcpts), last.ret, wfa, wfb, len(ra), len(rb))
+	// MAIL, one per RCPT, 354 for DATA, one final reply per recipient
+	wantN := 1 + 2*len(last.rcpts)
+	if !bdat {
+		wantN++
+	}
+	verifAssert(wfa && wfb && len(rb) == wantN, "C13.isolation-fresh-reply-count")
+	verifAssert(string(a) == string(b), "C13.isolation-later-message-gets-its-own-statuses")
+	verifReach("C13.isolation-end")
+}
